@@ -270,7 +270,7 @@ def replay(data) -> int:
     if case.get("kind") == "pair":
         res = core.run_forked([case], worker_c)[0]
     else:
-        case = {k: v for k, v in case.items() if not k.startswith("_")}
+        case = dict(case)
         res = core.run_forked([case], worker_b)[0]
     print("status:", res.status, res.note)
     for v in res.violations:
